@@ -39,7 +39,8 @@ class Setup:
         # the harness asked the code)
         self.has_eq = any(sp.operator in ("==", "===") and not sp.version.endswith(".*") for sp in self.req.specifier)
         self.has_eq_code = is_pinned_requirement(self.req)
-        self.req_has_pre = has_prerelease(self.req)
+        from rv.common import names_prerelease
+        self.req_has_pre = names_prerelease(self.req)
         self.norm = normalize_project_name
         self.unreadable = {i for i, f in enumerate(case["files"]) if f.get("unreadable")}
 
